@@ -7143,9 +7143,9 @@ static PyObject* lacpy(PyObject *self, PyObject *args, PyObject *kwrds)
     if (ldB == 0) ldB = MAX(1, B->nrows);
     if (ldB < MAX(1, m)) err_ld("ldB");
     if (oA < 0) err_nn_int("offsetA");
-    if (oA + (n-1)*ldA + m > len(A)) err_buf_len("A");
+    if (m > 0 && n > 0 && oA + (n-1)*ldA + m > len(A)) err_buf_len("A");
     if (oB < 0) err_nn_int("offsetB");
-    if (oB + (n-1)*ldB + m > len(B)) err_buf_len("B");
+    if (m > 0 && n > 0 && oB + (n-1)*ldB + m > len(B)) err_buf_len("B");
 
     switch (MAT_ID(A)){
         case DOUBLE:
@@ -7300,7 +7300,7 @@ static PyObject* larfx(PyObject *self, PyObject *args, PyObject *kwrds)
     if (ldC == 0) ldC = MAX(1, C->nrows);
     if (ldC < MAX(1,m)) err_ld("ldC");
     if (oC < 0) err_nn_int("offsetC");
-    if (oC + (n-1)*ldC + m > len(C)) err_buf_len("C");
+    if (m > 0 && n > 0 && oC + (n-1)*ldC + m > len(C)) err_buf_len("C");
 
 
     switch (MAT_ID(v)){
